@@ -79,7 +79,7 @@ def run(ctx):
     # acknowledge exactly what was outstanding at the timeout (the boundary of the "recover" rule)
     for k in range(ctx.pick(3, 12)):
         i += 1
-        first = rng.choice([2, 3, 4])
+        first = [8, 7, 9, 10, 6][k % 5]      # >= 6: the window after go-back-N must hold >= 4 segments so that 3 duplicate ACKs can arrive
         mss = 300 - 52
         s = dict(v=4, mtu=300, sack=(k % 3 == 2), cc='', deadline_ms=45000, seed=i + 1, flags={}, sync=True,
                  a=dict(writes=[first * mss, 8 * mss], write_gap_us=3500000, shutdown=True), b=dict(writes=[], shutdown=True),
